@@ -146,6 +146,10 @@ func (c *Channel) Deliver(out, x []byte) ([]byte, error) {
 			if s == nil {
 				continue
 			}
+			if !s.IsInit() && IsInitHello(x) && se.ID != blake2b.Sum256(x) {
+				// a responder session only answers the InitHello it was created for.
+				continue
+			}
 			readyBefore := s.IsReady()
 			isApp, out, err := s.Deliver(out, x, now)
 			if err != nil {
